@@ -147,3 +147,12 @@ Theorem C02_host_in_url_prefix_refuted :
     cp_line line url host = false /\ ref_match (ast_of_text line) url host hs.
 Proof. exact host_in_url_prefix_refuted. Qed.
 Print Assumptions C02_host_in_url_prefix_refuted.
+
+Theorem C02_www_strip_case_refuted :
+  exists line url host hs,
+    nondegenerate_text line = true /\ host_right_pipe line = false /\ www_strip_case line = true /\
+    wf_request {| r_url := url; r_host := host |} hs /\
+    cp_line line url host = false /\ ref_match (ast_of_text line) url host hs /\
+    cp_line (lower_str line) url host = true.
+Proof. exact www_strip_case_refuted. Qed.
+Print Assumptions C02_www_strip_case_refuted.
